@@ -216,6 +216,8 @@ def main(run: Run):
     run_configs(run, __name__, cfgs)
     from . import patterns_l1
     patterns_l1.add_to(run)
+    from . import validation
+    validation.add_to(run, ['wb_decoder_add', 'memory_map_setters'])
     return run.finish(
         explanation="wishbone.Decoder.elaborate contract: per-subordinate selection by the memory map's window range, request "
                     "copy with feature defaults, select fan-out, dense address offset, response relay under the Wishbone "
